@@ -353,6 +353,128 @@ Definition v_message (m : message) : result (list vmsg) :=
 
 End Validate.
 
+(* ---------- the domain of the conformance theorems (decidable; also evaluated on every tree of the
+   correspondence run): the tree is LINKED to a well-formed reference ----------
+   At every element the validator visits: the reference is well formed (rows well formed, no name
+   declared twice, declared leaf datatypes base / varies / None), the element's own structure
+   resolves each declared child name to itself (true of every element that was created with the
+   reference it is validated against), and el.to_er7() needed by the length check does not raise. *)
+
+Fixpoint all_some {A} (l : list (option A)) : option (list A) :=
+  match l with
+  | [] => Some []
+  | Some x :: r => match all_some r with Some r' => Some (x :: r') | None => None end
+  | None :: _ => None
+  end.
+
+Definition rows_linked {A} (resolve : str -> option str) (nm : A -> option str) (isz : A -> bool)
+           (lk : option sref -> A -> bool) (kids : list A) (rows : list (option vchild)) : bool :=
+  match all_some rows with
+  | None => false
+  | Some rows' =>
+      nodupb streqb (map vc_name rows')
+      && forallb (fun vc => opt_eqb (resolve (vc_name vc)) (Some (vc_name vc))
+                            && forallb (fun k => if is_named nm (vc_name vc) k then lk (Some (vc_ref vc)) k else true) kids)
+                 rows'
+      && forallb (fun k => if isz k then lk None k else true) kids
+  end.
+
+Section Linked.
+Variable t : tables.
+Variable lvl : level.
+Variable e : ec.
+
+Definition wf_leaf (i : info) : bool :=
+  match i_dt i with None => true | Some d => base t (Some d) || is_varies (Some d) end.
+
+Definition linked_sub (ref : option sref) (s : sub) : bool :=
+  if sub_unknown s then true else
+  match ref_or_load (t_components t) (sc_name s) ref with
+  | None => true
+  | Some r => match view_of t r with VLeaf i => wf_leaf i | _ => false end
+  end.
+
+Definition linked_comp (ref : option sref) (c : comp) : bool :=
+  if comp_unknown c then true else
+  match ref_or_load (t_components t) (c_name c) ref with
+  | None => true
+  | Some r =>
+      match view_of t r with
+      | VSeq _ rows _ => rows_linked (resolve_comp t c) sc_name (fun _ => false) linked_sub (c_children c) rows
+      | VLeaf i => wf_leaf i
+      | VBad => false
+      end
+  end.
+
+Definition linked_field (ref : option sref) (f : field) : bool :=
+  if field_unknown f then true else
+  if field_is_z f then
+    if base t (f_dt f) || is_varies (f_dt f) then true else
+    (match f_dt f with
+     | Some d => match slookup d (t_structs t) with
+                 | Some rows => rows_linked (resolve_field t f) c_name (fun _ => false) linked_comp (f_children f)
+                                            (map (row_view t) rows)
+                 | None => true
+                 end
+     | None => true
+     end) && forallb (linked_comp None) (f_children f)
+  else
+  match ref_or_load (t_fields t) (f_name f) ref with
+  | None => true
+  | Some r =>
+      match view_of t r with
+      | VSeq _ rows _ => rows_linked (resolve_field t f) c_name (fun _ => false) linked_comp (f_children f) rows
+      | VLeaf i => wf_leaf i && (if (-1 <? i_maxlen i)%Z then is_ok (enc_field t e f) else true)
+      | VBad => false
+      end
+  end.
+
+Definition linked_seg (ref : option sref) (s : seg) : bool :=
+  if seg_is_z s then forallb (linked_field None) (s_children s) else
+  match ref_or_load (t_segments t) (Some (s_name s)) ref with
+  | None => true
+  | Some r =>
+      match view_of t r with
+      | VSeq _ rows _ => rows_linked (resolve_seg s) f_name field_is_z linked_field (s_children s) rows
+      | _ => false
+      end
+  end.
+
+Fixpoint linked_node (ref : option sref) (n : node) {struct n} : bool :=
+  match n with
+  | NSeg s => linked_seg ref s
+  | NGrp name st kids =>
+      match name with
+      | None => true
+      | Some _ =>
+          match ref_or_load (t_groups t) name ref with
+          | None => true
+          | Some r =>
+              match view_of t r with
+              | VSeq _ rows _ => rows_linked (resolve_group t lvl false st kids) node_name node_is_z linked_node kids rows
+              | _ => false
+              end
+          end
+      end
+  end.
+
+Definition linked_message (m : message) : bool :=
+  match m_name m with
+  | None => true
+  | Some mn =>
+      if valid_z_message_name mn then forallb (linked_node None) (m_children m) else
+      match ref_or_load (t_messages t) (m_name m) (option_map st_reference (m_st m)) with
+      | None => true
+      | Some r =>
+          match view_of t r with
+          | VSeq _ rows _ => rows_linked (resolve_group t lvl false (m_st m) (m_children m)) node_name node_is_z
+                                         linked_node (m_children m) rows
+          | _ => false
+          end
+      end
+  end.
+End Linked.
+
 (* ---------- entry points: Element.validate passes self.reference ---------- *)
 
 Definition lift_errors (r : result (list vmsg)) : result (list verr) :=
